@@ -79,8 +79,9 @@ Inductive pc :=
 | M_rel       (*     (entry was present at the second check) leaving the with block releases the lock *)
 | M_get       (* return self.memo.get(key)                                read memo *)
 (* sort_fields (no lock at all: a check-then-set of a value computed from frozen data) *)
-| S_get       (* retval = self._sortcache.get(cls, None); if retval is not None: return retval   read cache *)
-| S_set       (* items = ...; items.sort(...); self._sortcache[cls] = items; return items        write cache *)
+| S_get       (* fti = cls.get_flat_type_info(cls); entry = self._sortcache.get(cls, None)
+                 if entry is not None and entry[0] is fti: return entry[1]                        read cache *)
+| S_set       (* items = ...; items.sort(...); self._sortcache[cls] = fti, items; return items   write cache *)
 | Done.
 
 Section Model.
@@ -96,6 +97,11 @@ Variable pre : bool.               (* the WSDL was built at start-up (wsgi_app.d
                                       the usage the class documents) before the first request *)
 Variable sf : Z -> V.              (* the sorted field list of a class: computed from cls.get_flat_type_info and
                                       the COMPLETE attributes of the field types (get_cls_attrs(v).order) *)
+Variable ftag : Z -> Z.            (* identity of the (memoized) flat type info a class has while requests are
+                                      processed; append_field / insert_field / customize drop the memoized
+                                      object at start-up, so a list cached before carries another identity *)
+Variable sc0 : Z -> option (Z * V).  (* what _sortcache holds when the first request arrives (lists cached by
+                                      start-up code, possibly for a field table the class no longer has) *)
 
 Definition full (k : Z) : V :=
   if has_prot k then over2 k (over1 k (base k)) else base k.
@@ -137,7 +143,8 @@ Record state := {
   vlock : option Z;         (* repaired only: the validation lock *)
   memo : Z -> option V;     (* memoize.memo *)
   mlock : option Z;         (* memoize.lock *)
-  scache : Z -> option V;   (* _sortcache (and every other lock-free fill of a pure value) *)
+  scache : Z -> option (Z * V);  (* _sortcache: class -> (identity of the flat type info the list was computed
+                                    from, sorted field list) *)
   thr : Z -> tstate
 }.
 
@@ -213,7 +220,7 @@ Definition with_memo (s : state) (k : Z) (v : V) : state :=
   {| app_wsdl := app_wsdl s; b_wsdl := b_wsdl s; b_gen := b_gen s; wlock := wlock s;
      cache := cache s; heap := heap s; next := next s; errlog := errlog s; vlock := vlock s;
      memo := upd (memo s) k (Some v); mlock := mlock s; scache := scache s; thr := thr s |}.
-Definition with_scache (s : state) (k : Z) (v : V) : state :=
+Definition with_scache (s : state) (k : Z) (v : Z * V) : state :=
   {| app_wsdl := app_wsdl s; b_wsdl := b_wsdl s; b_gen := b_gen s; wlock := wlock s;
      cache := cache s; heap := heap s; next := next s; errlog := errlog s; vlock := vlock s;
      memo := memo s; mlock := mlock s; scache := upd (scache s) k (Some v); thr := thr s |}.
@@ -244,7 +251,7 @@ Definition init (v : variant) (reqs : Z -> req) : state :=
   {| app_wsdl := None; b_wsdl := (if pre then Some 0 else None); b_gen := (if pre then 1 else 0); wlock := None;
      cache := fun _ => None; heap := fun _ => base 0; next := 0;
      errlog := None; vlock := None; memo := fun _ => None; mlock := None;
-     scache := fun _ => None; thr := fun t => tinit v (reqs t) |}.
+     scache := sc0; thr := fun t => tinit v (reqs t) |}.
 
 Definition key_of (th : tstate) : Z := hd 0 (todo th).
 
@@ -349,10 +356,14 @@ Definition step (v : variant) (reqs : Z -> req) (s : state) (t : Z) : option sta
              end
   (* ---- sort_fields: the list object read at the check is the one returned *)
   | S_get => match scache s k with
-             | Some x => Some (with_thr s t (consume th S_get x))
+             | Some (g, x) =>
+                 (* entry is not None and entry[0] is fti: the list is returned only if it was computed
+                    from the field table the class has NOW; otherwise it is computed again *)
+                 if g =? ftag k then Some (with_thr s t (consume th S_get x))
+                 else Some (with_thr s t (set_pc th S_set))
              | None => Some (with_thr s t (set_pc th S_set))
              end
-  | S_set => Some (with_thr (with_scache s k (sf k)) t (consume th S_get (sf k)))
+  | S_set => Some (with_thr (with_scache s k (ftag k, sf k)) t (consume th S_get (sf k)))
   | Done => None
   end.
 
